@@ -9,6 +9,7 @@ import (
 	"os"
 	"runtime"
 	"strconv"
+	"time"
 
 	"verif/internal/gen"
 	"verif/internal/props"
@@ -123,6 +124,7 @@ func run() {
 		b = append(b, '\n')
 		logf.Write(b)
 	}
+	startDeadlockMonitor()
 	sum := summary{T: "s", Counters: map[string]int64{}, Maxes: map[string]int64{}}
 	seen := map[uint64]bool{}
 	nbSamples := 0
@@ -141,7 +143,13 @@ func run() {
 		// Record the case before touching gophersat: header is a fixed-width index and length.
 		cur := append([]byte(fmt.Sprintf("%012d %012d\n", idx, len(raw))), raw...)
 		curf.WriteAt(cur, 0)
+		currentCase.Store(int64(idx))
+		t0 := time.Now()
 		rec := runCase(p, c, tier)
+		if ms := time.Since(t0).Milliseconds(); ms > sum.Maxes["slowest_case_ms(informational)"] {
+			sum.Maxes["slowest_case_ms(informational)"] = ms
+			sum.Maxes["slowest_case_ms_x1e7_plus_index(informational)"] = ms*10_000_000 + int64(idx)
+		}
 		sum.N++
 		for k, v := range rec.Counters {
 			sum.Counters[k] += v
